@@ -26,7 +26,7 @@ ASSUMPTIONS = ["the integral itself is sedfitter's own Filter.rebin used in isol
                'fit agreement is judged by model name within a first-order perturbation bound; models whose prediction is within 10 delta of a limit point are skipped']
 PROBES = ['crash_rerun', 'crash_left_partial_file', 'subset_calls', 'overwrite_call', 'mixed_grid', 'v1_v2_compared', 'fits_compared',
           'multi_aperture', 'gz_package', 'subdir_package', 'f4_storage', 'limit_skipped', 'tie_group', 'singular_skipped',
-          'consumer_between_convolver_calls', 'remove_resolved', 'bystander_fitter_alive']
+          'consumer_between_convolver_calls', 'remove_resolved', 'bystander_fitter_alive', 'same_filter_objects_in_several_calls', 'filter_in_decreasing_frequency']
 
 
 def budgets(tier):
@@ -36,7 +36,7 @@ def budgets(tier):
 
 
 def generate(rng, tier, idx):
-    w = gen_world(rng, fmt=1, n_models=(1, 8), n_wav=(5, 40), n_filters=(1, 3), allow_mixed=False)
+    w = gen_world(rng, fmt=1, n_models=(1, 8), n_wav=(5, 40), n_filters=(1, 3), allow_mixed=False, filt_desc=True)
     w['n_ap'] = rng.randint(1, 5)
     w['apdep'] = w['n_ap'] > 1 and rng.random() < 0.7
     w['has_ap'] = True if w['n_ap'] > 1 else rng.random() < 0.5
@@ -81,6 +81,7 @@ def generate(rng, tier, idx):
         steps.append({'op': 'fit', 'source': gen_source(rng, nf, 'src%d' % i, flags=(0, 1, 1, 1, 1, 2, 3, 9), min_fit=min(2, nf))})
     return {'world': w, 'formats': formats, 'listing_seed': rng.randrange(1 << 30), 'theta_seed': rng.randrange(1 << 30),
             'bystander': rng.choice([None, None, 'before', 'after']), 'bystander_seed': rng.randrange(1 << 30),
+            'reuse_filters': rng.random() < 0.5,
             'remove_resolved': w['apdep'] and rng.random() < 0.4,      # a documented Fitter option; must act alike in every configuration
             'av_range': [0.0, round(rng.uniform(2, 30), 2)], 'drange': [1.0, rng.choice([1.0, 1.5, 2.5])], 'steps': steps}
 
@@ -177,8 +178,11 @@ def _execute(sc, sim, out):
         out.probe('multi_aperture')
     if spec['mixed'] is not None:
         out.probe('mixed_grid')
+    if any(f.get('desc') for f in spec['filters']):
+        out.probe('filter_in_decreasing_frequency')
     trace = [tuple(sc['formats']), min(W.n_ap, 2), spec['dtype'], bool(spec['gz']), bool(spec['subdir']), spec['mixed'] is not None]
     shape = []
+    shared_filters = None
     done_filters = {1: set(), 2: set()}
     for st in sc['steps']:
         if st['op'] == 'consume':
@@ -209,7 +213,14 @@ def _execute(sc, sim, out):
         d = dirs.get(st['fmt'])
         if d is None:
             continue
-        filts = W.filters(subset=st['subset'])
+        if sc.get('reuse_filters'):
+            # the user builds the Filter objects once and hands the same objects to every convolver call
+            if shared_filters is None:
+                shared_filters = W.filters()
+            filts = [shared_filters[j] for j in range(len(W.fspec)) if j in st['subset']]
+            out.probe('same_filter_objects_in_several_calls')
+        else:
+            filts = W.filters(subset=st['subset'])
         kw = {'overwrite': st['overwrite']}
         if st['fmt'] == 2:
             kw['memmap'] = st['memmap']
@@ -228,7 +239,8 @@ def _execute(sc, sim, out):
             if st['partial']:
                 out.probe('crash_left_partial_file')
             kw['overwrite'] = True
-            filts = W.filters(subset=st['subset'])
+            if not sc.get('reuse_filters'):
+                filts = W.filters(subset=st['subset'])
         r = pipe.call(pipe.convolve_model_dir, d, filts, **kw)
         if r[0] != 'ok':
             out.violate('convolve-failed', 'convolve_model_dir (format %d, filters %s, overwrite=%s) raised %s: %s' % (st['fmt'], st['subset'], kw['overwrite'], pipe.exc_name(r), r[1]),
@@ -257,7 +269,6 @@ def _execute(sc, sim, out):
                 out.trace = trace
                 return
             files[(fmt, j)] = r[1]
-    filt_objs = W.filters()
     for (fmt, j), c in sorted(files.items()):
         fs = W.fspec[j]
         order = [W.names[i] for i in W.perm] if fmt == 1 else list(W.names)
@@ -277,7 +288,7 @@ def _execute(sc, sim, out):
         for i, nm in enumerate(W.names):
             wv, val, unc = W.sed[i]
             snu = nu_of(wv)[::-1].copy()            # increasing frequency, as the convolver reads it
-            R = filt_objs[j].rebin(snu * u.Hz).response
+            R = W.filters(subset=[j])[0].rebin(snu * u.Hz).response        # a Filter object nobody else has touched
             ef = np.sum(val[:, ::-1] * R[None, :], axis=1)
             ee = np.sqrt(np.sum((unc[:, ::-1] * R[None, :]) ** 2, axis=1))
             row = c['names'].index(nm)
@@ -443,6 +454,8 @@ def lowerings(sc, viol=None):
         yield dict(sc, bystander=None)
     if sc.get('remove_resolved'):
         yield dict(sc, remove_resolved=False)
+    if sc.get('reuse_filters'):
+        yield dict(sc, reuse_filters=False)
     for i, st in enumerate(sc['steps']):
         if st['op'] == 'convolve':
             if st['crash_at'] is not None:
